@@ -33,7 +33,7 @@ pub fn domain(prop: &str, small: bool) -> Domain {
         "C08big" => Domain { name: "C08big", nclients: (1, 2), big_pad: true, flush: false, steps: 120, ..d },
         "C09" => Domain { name: "C09", nclients: (2, 4), good: 1, close_weight: 4, ..d },
         "C10" => Domain { name: "C10", nclients: if small { (4, 6) } else { (11, 13) }, good: 0, close_weight: 5, steps: if small { 70 } else { 140 }, ..d },
-        "C18" => Domain { name: "C18", nclients: (1, 4), good: 0, kill: true, close_weight: 2, ..d },
+        "C18" => Domain { name: "C18", nclients: (1, if small { 4 } else { 11 }), good: 0, kill: true, close_weight: 1, ..d },
         "C04" => Domain { name: "C04", nclients: (1, 3), good: 0, setlimit: true, close_weight: 1, ..d },
         _ => d,
     }
@@ -157,6 +157,26 @@ pub fn history(dom: &Domain, seed: u64, hist: u64, sock_dir: &str, out: &mut dyn
         i += 1;
         let settling = i > dom.steps;
         if i == kill_at + 1 && !killed {
+            if rng.gen_bool(0.6) {
+                // burst: everybody becomes readable at once, one more client waits, then the signal
+                for c in 1..=nclients {
+                    if !cs[c - 1].connected && !cs[c - 1].closed {
+                        d.step(&json!({"e": "connect", "c": c}), out);
+                        cs[c - 1].connected = true;
+                        if d.ready() && c < nclients {
+                            d.step(&json!({"e": "poll"}), out);
+                        }
+                    }
+                }
+                for c in 1..=nclients {
+                    if cs[c - 1].connected && !cs[c - 1].closed && !cs[c - 1].wr {
+                        cs[c - 1].nreq += 1;
+                        let k = cs[c - 1].nreq;
+                        let pieces = request_pieces(&mut rng, c, k, true, limit);
+                        d.step(&json!({"e": "send", "c": c, "bytes": obs::bytes(&pieces[0])}), out);
+                    }
+                }
+            }
             d.step(&json!({"e": "kill"}), out);
             killed = true;
             continue;
@@ -218,7 +238,7 @@ pub fn history(dom: &Domain, seed: u64, hist: u64, sock_dir: &str, out: &mut dyn
             cands.push((1, json!({"e": "flush"})));
         }
         if dom.setlimit && !settling {
-            cands.push((1, json!({"e": "setlimit", "limit": obs::digits(*[0u128, 3, 20, 51200].choose(&mut rng).unwrap())})));
+            cands.push((3, json!({"e": "setlimit", "limit": obs::digits(*[0u128, 3, 20, 51200].choose(&mut rng).unwrap())})));
         }
         if d.ready() {
             cands.push((4, json!({"e": "poll"})));
@@ -254,7 +274,8 @@ pub fn history(dom: &Domain, seed: u64, hist: u64, sock_dir: &str, out: &mut dyn
                     }
                     cs[c - 1].nreq += 1;
                     let k = cs[c - 1].nreq;
-                    let mut pieces = request_pieces(&mut rng, c, k, good, cur_limit.min(limit));
+                    let lim = if dom.setlimit && rng.gen_bool(0.5) { cur_limit.max(limit).min(40) } else { cur_limit.min(limit) };
+                    let mut pieces = request_pieces(&mut rng, c, k, good, lim);
                     // sometimes pipeline a second request into the same send
                     if rng.gen_bool(0.2) {
                         cs[c - 1].nreq += 1;
